@@ -389,6 +389,19 @@ LOGOS_ITEMS = ['skip(" +")', 'skip("x", priority = 9)', 'utf8 = false', 'error =
 def fam_c18_logos(R, n):
     out = []
     gid = 1000
+    # enumerated: every item next to every other item of a different kind, in both orders (an item must not swallow or
+    # drop what follows it in the same attribute)
+    items = LOGOS_ITEMS + ['error(MyErr)', 'error(MyErr, callback = mk_err)', 'error(MyErr, mk_err)']
+    def kind(it):
+        return it.split('(')[0].split(' ')[0].split('=')[0].strip()
+    for a in items:
+        for b in items:
+            if a >= b or (kind(a) == kind(b) and kind(a) != 'skip'):
+                continue
+            for perm in ((a, b), (b, a)):
+                src = enum(['#[logos(%s)]' % ', '.join(perm)], ['#[regex("[a-z]+")] Id,', '#[token("=")] Eq,'])
+                out.append(dict(family='c18-logos-pairs', src=src, meta=dict(group=gid, perm=list(perm))))
+            gid += 1
     for i in range(n):
         k = R.choice([2, 3, 3, 4])
         items = R.sample(LOGOS_ITEMS, k)
